@@ -255,6 +255,8 @@ class JoinerEval:
                 if len(vals) != 1:
                     raise _NonUniform(unparse(test))
                 return vals.pop()
+        if any(isinstance(x, ast.Name) and isinstance(env.get(x.id), (Word, Seq)) for x in ast.walk(test)):
+            raise _NonUniform(f"{unparse(test)}: the case of a word depends on the words themselves, not on its position")
         self.fail(test, "condition is not a test of the word's position")
 
     def expr(self, e: ast.expr, env: t.Dict[str, Sym]) -> Sym:
@@ -458,7 +460,7 @@ def rule_c20_r2(model: Model) -> RuleResult:
             term = JoinerEval(model, a, style).function(fn)
             got = _canon(term)
         except _NonUniform as ex:
-            got = f"later words are not treated alike (`{ex}`)"
+            got = f"words are not cased by position alone (`{ex}`)"
         r.sample({'style': style, 'joiner': got if isinstance(got, str) else {'separator': got[0], 'first word': got[1], 'later words': got[2]}})
         if got == want:
             r.ok()
@@ -817,3 +819,85 @@ def _raised_class(model: Model, f: FuncInfo, n: Node) -> t.Optional[str]:
     if q is not None and q.startswith('builtins.'):
         q = q[len('builtins.'):]
     return q
+
+
+def rule_c20_r5(model: Model) -> RuleResult:
+    """Class-level renaming reaches rename_field unchanged: the field's name and the class's styles are handed over as given."""
+    r = RuleResult('C20-R5', "make_field hands the field name and the class-level styles to rename_field as given (not rebound, not "
+                             "skipped depending on how the name is spelled)", floor=2)
+    mk = model.func(f'{FIELD_MOD}.FieldSpec.make_field')
+    cls = mk.cls
+    assert cls is not None
+    closure = [mk]
+    for g in closure:
+        for c in ast.walk(g.node):
+            if isinstance(c, ast.Call) and isinstance(c.func, ast.Attribute) and isinstance(c.func.value, ast.Name) and g.params \
+                    and c.func.value.id == g.params[0]:
+                h = model.find_method(cls.qualname, c.func.attr)
+                if h is not None and h not in closure and isinstance(h.node, ast.FunctionDef):
+                    closure.append(h)
+            if isinstance(c, ast.Call) and isinstance(c.func, ast.Name):
+                h2 = model.functions.get(model.resolve(c.func, g.module, g) or '')
+                if h2 is not None and h2.module is g.module and h2.cls is None and h2.qualname != RENAME and h2 not in closure \
+                        and isinstance(h2.node, ast.FunctionDef):
+                    closure.append(h2)
+    # (a) parameters are not rebound
+    r.instances += 1
+    r.analysed.add(mk.qualname)
+    rebound = []
+    for g in closure:
+        cfg = cfg_of(model, g)
+        for p_ in (g.params[1:] if g.cls is not None else g.params):
+            for d in cfg.reaching().by_name.get(p_, []):
+                if d.kind != 'param':
+                    rebound.append((g, d, p_))
+    if rebound:
+        g, d, p_ = rebound[0]
+        r.fail(g.qualname, f"parameter {p_} is rebound", g.loc(d.stmt or d.node.ast or g.node),
+               "the field name or the class-level rename style is replaced before renaming: some fields keep their Python spelling although "
+               "the class asks for a style (e.g. `width` stays `width` under rename='scream')")
+    else:
+        r.ok()
+    # (b) every rename_field call gets (the name, one of the class-level styles), under configuration tests only
+    n_calls = 0
+    for g in closure:
+        cfg = cfg_of(model, g)
+        nz = Normalizer(model, g, cfg)
+        for n in cfg.live_nodes():
+            for root in node_exprs_(n):
+                for c, bound in _walk_bound(root, nz, n):
+                    if not (isinstance(c, ast.Call) and model.resolve(c.func, g.module, g) == RENAME and len(c.args) >= 2):
+                        continue
+                    n_calls += 1
+                    r.instances += 1
+                    name_form = nz.expr(c.args[0], n, bound)
+                    style_form = nz.expr(c.args[1], n, bound)
+                    conds = []
+                    for (cid, lb) in cfg.conditions_of(n):
+                        cn = cfg.nodes[cid]
+                        if cn.kind == 'cond' and cn.ast is not None:
+                            text, _pos = nz.literal(cn.ast, cn)
+                            conds.append(text)
+                    r.sample({'function': g.qualname, 'rename_field': f"({name_form}, {style_form})", 'under': conds})
+                    ok_name = bool(re.match(r'^(VAL|\$\w+)$', name_form))
+                    ok_style = bool(re.match(r'^(\$\w+|ELEM\(\$\w+\))$', style_form))
+                    name_dep = [c_ for c_ in conds if name_form in c_ and ' is None' not in c_]
+                    if ok_name and ok_style and not name_dep:
+                        r.ok()
+                    else:
+                        r.fail(g.qualname, f"rename_field({name_form}, {style_form}) under {name_dep or conds}", g.loc(c),
+                               "renaming is applied to something else than the field's name and the class's style, or only for names of a "
+                               "certain spelling")
+    if n_calls == 0:
+        raise AnalysisError(f"{mk.loc()}: make_field never calls rename_field")
+    return r
+
+
+def node_exprs_(n: Node) -> t.List[ast.AST]:
+    from ..cfg import node_exprs
+    return node_exprs(n)
+
+
+def _walk_bound(root: ast.AST, nz: Normalizer, n: Node) -> t.Iterator[t.Tuple[ast.AST, t.Dict[str, str]]]:
+    from ..family import walk_with_bindings
+    return walk_with_bindings(root, nz, n)
